@@ -332,3 +332,232 @@ pub fn run(args: &Args) {
 pub fn run_mal(args: &Args) {
     run_with("c08mal", args, gen_mal);
 }
+
+// ------------------------------------------------------------------------------------------------
+// c08e2e: generated designspace + UFO masters -> fontc::generate_font -> fvar/avar read back.
+// Source writing and the build call come from the shared crate::e2e helpers; the table read-back is local.
+
+use crate::e2e::{build, design as ds, write as dswrite};
+use write_fonts::read::{FontRef, TableProvider};
+
+fn f32r(v: f64) -> f64 {
+    // designspace numbers pass through f32 in norad: generate values that survive that
+    (v as f32) as f64
+}
+
+struct E2eAxis {
+    tag: &'static str,
+    name: &'static str,
+    /// examples in the order written to the document (empty = no <map>)
+    map: Vec<(f64, f64)>,
+    /// examples sorted by user value (for an unmapped axis: min/default/max on the diagonal)
+    nodes: Vec<(f64, f64)>,
+    default_idx: usize,
+    min: f64,
+    default: f64,
+    max: f64,
+    probes: Vec<f64>,
+}
+
+fn gen_e2e_axis(rng: &mut Rng, which: usize) -> E2eAxis {
+    let (tag, name) = [("wght", "Weight"), ("wdth", "Width")][which];
+    let c = loop {
+        let c = gen_wf(rng);
+        if c.mappings.len() >= 2 && c.max > c.min { break c; }
+    };
+    let r = |p: &(f64, f64)| (f32r(p.0), f32r(p.1));
+    let mut map: Vec<(f64, f64)> = c.mappings.iter().map(r).collect();
+    let (min, default, max) = (f32r(c.min), f32r(c.default), f32r(c.max));
+    let mut nodes = map.clone();
+    nodes.sort_by(|a, b| a.partial_cmp(b).unwrap());
+    // f32 rounding must not have merged user values or reordered design values
+    let ok = nodes.windows(2).all(|w| w[0].0 < w[1].0 && w[0].1 <= w[1].1);
+    if !ok || c.unmapped {
+        // fall back to an unmapped axis
+        map.clear();
+        nodes = vec![(min, min), (default, default), (max, max)];
+        nodes.dedup();
+    }
+    let default_idx = if map.is_empty() { 0 } else { map.iter().position(|p| p.0 == default).unwrap() };
+    let probes = probes_for(rng, &nodes, min, max, true);
+    E2eAxis { tag, name, map, nodes, default_idx, min, default, max, probes }
+}
+
+fn interp_nodes(nodes: &[(f64, f64)], u: f64) -> f64 {
+    for w in nodes.windows(2) {
+        if u <= w[1].0 {
+            return w[0].1 + (u - w[0].0) / (w[1].0 - w[0].0) * (w[1].1 - w[0].1);
+        }
+    }
+    nodes[nodes.len() - 1].1
+}
+
+fn square(adv: f64) -> ds::GlyphDef {
+    let p = |x: f64, y: f64| ds::Pt { x, y, typ: ds::PtType::Line };
+    ds::GlyphDef {
+        advance: adv,
+        contours: vec![vec![p(50.0, 0.0), p(adv - 50.0, 0.0), p(adv - 50.0, 500.0), p(50.0, 500.0)]],
+        ..Default::default()
+    }
+}
+
+pub fn run_e2e(args: &Args) {
+    let seed = args.seed;
+    crate::run_cases("c08e2e", args, move |i| {
+        let mut rng = Rng::for_case(seed, "c08e2e", i);
+        let n_axes = 1 + rng.below(2);
+        let axes: Vec<E2eAxis> = (0..n_axes).map(|k| gen_e2e_axis(&mut rng, k)).collect();
+        // named instances at design locations inside the design range
+        let n_inst = rng.below(4);
+        let mut inst_locs = vec![];
+        for _ in 0..n_inst {
+            let loc: Vec<f64> = axes.iter().map(|a| {
+                let (lo, hi) = (a.nodes[0].1, a.nodes[a.nodes.len() - 1].1);
+                match rng.below(3) {
+                    0 => a.nodes[rng.below(a.nodes.len())].1,
+                    1 => f32r(lo + (hi - lo) * 0.5),
+                    _ => f32r(lo + (hi - lo) * (rng.below(101) as f64 / 100.0)),
+                }
+            }).collect();
+            inst_locs.push(loc);
+        }
+        e2e_build(&axes, inst_locs)
+    });
+}
+
+/// `vharness c08e2eone "u:d,...;default_idx;min;default;max[;instance design coords,...]"`: one hand-written
+/// single-axis designspace through the real build (replays findings end to end).
+pub fn run_e2e_one(args: &Args) {
+    let spec = args.rest.first().cloned().unwrap_or_default();
+    let parts: Vec<&str> = spec.split(';').collect();
+    assert!(parts.len() >= 5, "expected \"u:d,...;idx;min;default;max[;d,d]\"");
+    let map: Vec<(f64, f64)> = parts[0].split(',').filter(|s| !s.is_empty()).map(|p| {
+        let (u, d) = p.split_once(':').expect("u:d");
+        (u.parse().unwrap(), d.parse().unwrap())
+    }).collect();
+    let default_idx: usize = parts[1].parse().unwrap();
+    let (min, default, max): (f64, f64, f64) = (parts[2].parse().unwrap(), parts[3].parse().unwrap(), parts[4].parse().unwrap());
+    let inst: Vec<Vec<f64>> = parts.get(5).map(|s| s.split(',').filter(|x| !x.is_empty()).map(|x| vec![x.parse().unwrap()]).collect()).unwrap_or_default();
+    let mut nodes = if map.is_empty() { vec![(min, min), (default, default), (max, max)] } else { map.clone() };
+    nodes.sort_by(|a, b| a.partial_cmp(b).unwrap());
+    nodes.dedup();
+    let one = Args { seed: args.seed, n: 1, from: 0, rest: vec![] };
+    crate::run_cases("c08e2e", &one, move |_| {
+        let mut rng = Rng::new(1);
+        let probes = probes_for(&mut rng, &nodes, min, max, true);
+        let axes = vec![E2eAxis { tag: "wght", name: "Weight", map: map.clone(), nodes: nodes.clone(), default_idx, min, default, max, probes }];
+        e2e_build(&axes, inst.clone())
+    });
+}
+
+fn e2e_build(axes: &[E2eAxis], inst_locs: Vec<Vec<f64>>) -> Vec<S> {
+    {
+        let mut d = ds::Design { family: "Verif Axis".into(), upem: 1000, ..Default::default() };
+        for a in axes {
+            d.axes.push(ds::AxisDef { tag: a.tag.into(), name: a.name.into(), min: a.min, default: a.default, max: a.max, map: a.map.clone() });
+        }
+        // masters: design default, plus each axis' design extremes where they differ from the default
+        let ddef: Vec<f64> = axes.iter().map(|a| interp_nodes(&a.nodes, a.default)).collect();
+        let mut locs = vec![ddef.clone()];
+        for (k, a) in axes.iter().enumerate() {
+            for v in [a.nodes[0].1, a.nodes[a.nodes.len() - 1].1] {
+                if v != ddef[k] {
+                    let mut l = ddef.clone();
+                    l[k] = v;
+                    if !locs.contains(&l) { locs.push(l); }
+                }
+            }
+        }
+        let info: Vec<(String, f64)> = [("ascender", 800.0), ("descender", -200.0), ("xHeight", 500.0), ("capHeight", 700.0)]
+            .iter().map(|(k, v)| (k.to_string(), *v)).collect();
+        for (mi, l) in locs.iter().enumerate() {
+            let mut m = ds::Master { name: format!("M{mi}"), style: if mi == 0 { "Regular".into() } else { format!("Style{mi}") }, loc: l.clone(), ..Default::default() };
+            m.glyphs.insert("a".into(), square(400.0 + 60.0 * mi as f64));
+            m.info = info.clone();
+            d.masters.push(m);
+        }
+        d.codepoints.insert("a".into(), vec![0x61]);
+        d.glyph_order = Some(vec!["a".into()]);
+        for (k, loc) in inst_locs.iter().enumerate() {
+            d.instances.push(ds::Instance { family: "Verif Axis".into(), style: format!("Inst{k}"), postscript: None, loc: loc.clone() });
+        }
+        let tmp = build::tmpdir("c08e2e");
+        let path = dswrite::write_design(tmp.path(), &d);
+        let res = build::compile(&path, &build::BuildOpts::default());
+        let mut f = vec![
+            S::k1("axes", S::list(axes.iter().map(|a| S::list([
+                S::k1("tag", S::str(a.tag)),
+                S::k1("mappings", S::list(a.map.iter().map(|(u, dv)| S::list([S::f64(*u), S::f64(*dv)])))),
+                S::k1("nodes", S::list(a.nodes.iter().map(|(u, dv)| S::list([S::f64(*u), S::f64(*dv)])))),
+                S::k1("default_idx", S::usize(a.default_idx)),
+                S::k1("min", S::f64(a.min)), S::k1("default", S::f64(a.default)), S::k1("max", S::f64(a.max)),
+                S::k1("probes", f64s(a.probes.iter().copied())),
+            ])))),
+            S::k1("instances", S::list(inst_locs.iter().map(|l| f64s(l.iter().copied())))),
+        ];
+        match res {
+            Err(e) => {
+                let word: String = e.chars().take_while(|c| c.is_ascii_alphanumeric()).collect();
+                f.push(S::kv("impl", [S::k1("result", S::atom(format!("err-{word}"))), S::k1("msg", S::str(&e))]));
+            }
+            Ok(bytes) => {
+                let font = FontRef::new(&bytes).expect("font parses");
+                let mut out = vec![S::k1("result", S::atom("ok"))];
+                if let Ok(fvar) = font.fvar() {
+                    let axes_r = fvar.axes().unwrap();
+                    out.push(S::k1("fvar", S::list(axes_r.iter().map(|a| S::list([
+                        S::str(&a.axis_tag().to_string()),
+                        S::int(a.min_value().to_bits()), S::int(a.default_value().to_bits()), S::int(a.max_value().to_bits()),
+                    ])))));
+                    let insts = fvar.instances().unwrap();
+                    out.push(S::k1("inst", S::list(insts.iter().filter_map(|x| x.ok()).map(|x| {
+                        S::list(x.coordinates.iter().map(|c| S::int(c.get().to_bits())))
+                    }))));
+                } else {
+                    out.push(S::k1("fvar", S::atom("none")));
+                }
+                match font.avar() {
+                    Ok(avar) => out.push(S::k1("avar", S::list(avar.axis_segment_maps().iter().filter_map(|m| m.ok()).map(|m| {
+                        S::list(m.axis_value_maps().iter().map(|v| S::list([S::int(v.from_coordinate().to_bits()), S::int(v.to_coordinate().to_bits())])))
+                    })))),
+                    Err(_) => out.push(S::k1("avar", S::atom("none"))),
+                }
+                f.push(S::kv("impl", out));
+            }
+        }
+        f
+    }
+}
+
+/// `vharness c08one "u:d,u:d,...;default_idx;min;default;max"` — one hand-written axis definition through the
+/// same real-code calls as `c08mal` (used to replay the excluded points quoted in the findings).
+pub fn run_one(args: &Args) {
+    let spec = args.rest.first().cloned().unwrap_or_default();
+    let parts: Vec<&str> = spec.split(';').collect();
+    assert!(parts.len() == 5, "expected \"u:d,...;idx;min;default;max\"");
+    let mappings: Vec<(f64, f64)> = parts[0].split(',').filter(|s| !s.is_empty()).map(|p| {
+        let (u, d) = p.split_once(':').expect("u:d");
+        (u.parse().unwrap(), d.parse().unwrap())
+    }).collect();
+    let default_idx: usize = parts[1].parse().unwrap();
+    let (min, default, max): (f64, f64, f64) = (parts[2].parse().unwrap(), parts[3].parse().unwrap(), parts[4].parse().unwrap());
+    let one = Args { seed: args.seed, n: 1, from: 0, rest: vec![] };
+    crate::run_cases("c08mal", &one, move |_| {
+        let mut rng = Rng::new(1);
+        let pn = if mappings.is_empty() { vec![(default, default)] } else { mappings.clone() };
+        let (lo, hi) = if min <= max { (min, max) } else { (max, min) };
+        let case = Case {
+            kind: "hand", mappings: mappings.clone(), default_idx, unmapped: false, min, default, max,
+            probes: probes_for(&mut rng, &pn, lo, hi, true), dprobes: dprobes_for(&mut rng, &pn),
+        };
+        let mut f = input_fields(&case);
+        let imp = std::panic::catch_unwind(|| impl_fields(&case)).unwrap_or_else(|e| {
+            let msg = e.downcast_ref::<String>().cloned()
+                .or_else(|| e.downcast_ref::<&str>().map(|s| s.to_string()))
+                .unwrap_or_default();
+            S::kv("impl", [S::k1("new", S::atom("panic")), S::k1("msg", S::str(&msg))])
+        });
+        f.push(imp);
+        f
+    });
+}
